@@ -201,6 +201,23 @@ pub fn enumerate(tier: Tier) -> Vec<WitCase> {
                 &["wi", "we", "wb"],
                 vec!["use-chain3".into(), b.tag.into()],
             ));
+            // chains of four and five interfaces (three and four hops)
+            out.push(case(
+                format!("use/chain4/{}", b.tag),
+                *v,
+                format!("{i0}interface i1 {{\n  use i0.{{{n}}};\n  g: func(x: {handle});\n}}\n\ninterface i2 {{\n  use i1.{{{n}}};\n  h: func() -> {n};\n}}\n\ninterface i3 {{\n  use i2.{{{n}}};\n  k: func(y: {handle}) -> {n};\n}}\n\nworld wi {{ import i3; }}\nworld we {{ export i3; }}\nworld wb {{ import i2; export i3; }}\n"),
+                &["i0", "i1", "i2", "i3"],
+                &["wi", "we", "wb"],
+                vec!["use-chain4".into(), b.tag.into()],
+            ));
+            out.push(case(
+                format!("use/chain5/{}", b.tag),
+                *v,
+                format!("{i0}interface i1 {{\n  use i0.{{{n}}};\n}}\n\ninterface i2 {{\n  use i1.{{{n}}};\n}}\n\ninterface i3 {{\n  use i2.{{{n}}};\n}}\n\ninterface i4 {{\n  use i3.{{{n}}};\n  k: func(y: {handle}) -> {n};\n}}\n\nworld wi {{ import i4; }}\nworld we {{ export i4; }}\n"),
+                &["i0", "i1", "i2", "i3", "i4"],
+                &["wi", "we"],
+                vec!["use-chain5".into(), b.tag.into()],
+            ));
             // chain of three whose first hop renames, and whose second hop renames
             out.push(case(
                 format!("use/chain3-rename-first/{}", b.tag),
